@@ -123,6 +123,9 @@ struct Cl {
   ola::client::StreamingClient *sclient;   // ola/StreamingClient.cpp over loopback TCP (or NULL)
   int pending;                   // streamed messages written but not yet handled by the server
   bool tcp;                      // an OlaClient over a loopback TCP socket instead of a pipe
+  bool ss_served;                // the daemon side stays registered with the real SelectServer (types T, L)
+  bool connected;                // false for a late client (type L) until its C op
+  bool stuck;                    // the SelectServer did not read what this client sent
   const ola::Client *srv_client; // server-side object (identity only)
   bool closed;                   // client called Stop()
   World *w;
@@ -213,7 +216,23 @@ static bool srv_alive(World *w, Cl *c) {
 static void loop(World *w) { w->ss->RunOnce(ola::TimeInterval(0, 0)); }
 
 // the server handles the head of client c's channel
+// a client whose daemon-side descriptor is registered with the real SelectServer: the event loop
+// itself reads (or notices the hang-up)
+static string server_step_ss(World *w, Cl *c) {
+  bool closing = c->closed;
+  for (int k = 0; k < 3 && c->sd && w->server->m_rpc_server->m_connected_sockets.count(c->sd) &&
+       (avail(c->sd, true) || c->closed); k++)
+    loop(w);
+  if (c->sd && w->server->m_rpc_server->m_connected_sockets.count(c->sd)) {
+    if (avail(c->sd, true) || c->closed) c->stuck = true;     // the event loop never serviced it
+  } else {
+    c->sd = NULL;
+  }
+  return closing ? "c" : "m";
+}
+
 static string server_step(World *w, Cl *c, bool new_iteration = true) {
+  if (c->ss_served) return server_step_ss(w, c);
   if (new_iteration) loop(w);               // wake-up time := now, pending callbacks
   if (!srv_alive(w, c)) { if (!new_iteration) loop(w); return "x"; }
   string r;
@@ -252,7 +271,7 @@ static string client_step(World *w, Cl *c) {
 }
 
 static bool server_can(World *w, Cl *c) {
-  return srv_alive(w, c) && (avail(c->sd, c->tcp) || c->pending > 0 || c->closed);
+  return !c->stuck && srv_alive(w, c) && (avail(c->sd, c->tcp) || c->pending > 0 || c->closed);
 }
 static bool client_can(Cl *c) { return !c->closed && c->cd && avail(c->cd, c->tcp); }
 
@@ -303,6 +322,73 @@ static string dump(World *w) {
     o << "]";
   }
   return o.str();
+}
+
+// connect client i (its kind is types[i]) to the daemon
+static string connect_client(World &w, ola::OlaServer *server, ola::io::SelectServer &ss, const string &types,
+                             unsigned i, Cl *c) {
+
+    c->idx = i;
+    c->w = &w;
+    c->closed = false;
+    c->sclient = NULL;
+    c->pending = 0;
+    c->tcp = false;
+    c->client = NULL;
+    c->srv_client = NULL;
+    std::set<const ola::Client*> before = server->m_broker->m_clients;
+    c->ss_served = (types[i] == 'T' || types[i] == 'L');
+    if (types[i] == 's' || types[i] == 't' || types[i] == 'T' || types[i] == 'L') {
+      std::set<ola::io::ConnectedDescriptor*> socks_before = server->m_rpc_server->m_connected_sockets;
+      uint16_t port = server->LocalRPCAddress().V4Addr().Port();
+      c->cd = NULL;
+      if (types[i] == 's') {
+        ola::client::StreamingClient::Options sopt;
+        sopt.auto_start = false;
+        sopt.server_port = port;
+        c->sclient = new ola::client::StreamingClient(sopt);
+        if (!c->sclient->Setup()) return "streaming-setup=failed";
+      } else {
+        ola::network::TCPSocket *sock = ola::network::TCPSocket::Connect(
+            ola::network::IPV4SocketAddress(ola::network::IPV4Address::Loopback(), port));
+        if (!sock) return "tcp-connect=failed";
+        sock->SetNoDelay();
+        int small = 4096;                     // keep the amount a non-reading client can buffer small
+        setsockopt(sock->ReadDescriptor(), SOL_SOCKET, SO_RCVBUF, &small, sizeof(small));
+        c->cd = sock;
+        c->tcp = true;
+      }
+      c->sd = NULL;
+      for (int tries = 0; tries < 200 && !c->sd; tries++) {
+        ss.RunOnce(ola::TimeInterval(0, 10000));       // accept the connection
+        const std::set<ola::io::ConnectedDescriptor*> &now_socks = server->m_rpc_server->m_connected_sockets;
+        for (std::set<ola::io::ConnectedDescriptor*>::const_iterator it = now_socks.begin(); it != now_socks.end(); ++it)
+          if (!socks_before.count(*it)) c->sd = *it;
+      }
+      if (!c->sd) return "tcp-accept=failed";
+      if (c->tcp) {
+        int small = 4096;
+        setsockopt(c->sd->WriteDescriptor(), SOL_SOCKET, SO_SNDBUF, &small, sizeof(small));
+      }
+    } else {
+      PipeDescriptor *pd = new PipeDescriptor();
+      pd->Init();
+      c->cd = pd;
+      c->sd = pd->OppositeEnd();
+      server->NewConnection(c->sd);
+    }
+    if (!c->ss_served) ss.RemoveReadDescriptor(c->sd);   // the harness dispatches this descriptor itself
+    for (std::set<const ola::Client*>::const_iterator it = server->m_broker->m_clients.begin();
+         it != server->m_broker->m_clients.end(); ++it)
+      if (!before.count(*it)) c->srv_client = *it;
+    if (!c->sclient) {
+      c->client = new OlaClient(c->cd);
+      c->client->Setup();
+      c->client->SetDMXCallback(ola::NewCallback(&ev_dmx, &w, static_cast<int>(i)));
+      if (c->tcp) c->client->SetCloseHandler(ola::NewSingleCallback(&ev_closed, &w, static_cast<int>(i)));
+    }
+    c->connected = true;
+  return "";
 }
 
 static volatile sig_atomic_t g_sigpipes = 0;
@@ -371,59 +457,18 @@ static string run_case_inner(const string &payload) {
     c->sclient = NULL;
     c->pending = 0;
     c->tcp = false;
+    c->ss_served = false;
+    c->connected = false;
+    c->stuck = false;
     c->client = NULL;
     c->srv_client = NULL;
-    std::set<const ola::Client*> before = server->m_broker->m_clients;
-    if (types[i] == 's' || types[i] == 't') {
-      std::set<ola::io::ConnectedDescriptor*> socks_before = server->m_rpc_server->m_connected_sockets;
-      uint16_t port = server->LocalRPCAddress().V4Addr().Port();
-      c->cd = NULL;
-      if (types[i] == 's') {
-        ola::client::StreamingClient::Options sopt;
-        sopt.auto_start = false;
-        sopt.server_port = port;
-        c->sclient = new ola::client::StreamingClient(sopt);
-        if (!c->sclient->Setup()) return "streaming-setup=failed";
-      } else {
-        ola::network::TCPSocket *sock = ola::network::TCPSocket::Connect(
-            ola::network::IPV4SocketAddress(ola::network::IPV4Address::Loopback(), port));
-        if (!sock) return "tcp-connect=failed";
-        sock->SetNoDelay();
-        int small = 4096;                     // keep the amount a non-reading client can buffer small
-        setsockopt(sock->ReadDescriptor(), SOL_SOCKET, SO_RCVBUF, &small, sizeof(small));
-        c->cd = sock;
-        c->tcp = true;
-      }
-      c->sd = NULL;
-      for (int tries = 0; tries < 200 && !c->sd; tries++) {
-        ss.RunOnce(ola::TimeInterval(0, 10000));       // accept the connection
-        const std::set<ola::io::ConnectedDescriptor*> &now_socks = server->m_rpc_server->m_connected_sockets;
-        for (std::set<ola::io::ConnectedDescriptor*>::const_iterator it = now_socks.begin(); it != now_socks.end(); ++it)
-          if (!socks_before.count(*it)) c->sd = *it;
-      }
-      if (!c->sd) return "tcp-accept=failed";
-      if (c->tcp) {
-        int small = 4096;
-        setsockopt(c->sd->WriteDescriptor(), SOL_SOCKET, SO_SNDBUF, &small, sizeof(small));
-      }
-    } else {
-      PipeDescriptor *pd = new PipeDescriptor();
-      pd->Init();
-      c->cd = pd;
-      c->sd = pd->OppositeEnd();
-      server->NewConnection(c->sd);
-    }
-    ss.RemoveReadDescriptor(c->sd);          // the harness dispatches this descriptor itself
-    for (std::set<const ola::Client*>::const_iterator it = server->m_broker->m_clients.begin();
-         it != server->m_broker->m_clients.end(); ++it)
-      if (!before.count(*it)) c->srv_client = *it;
-    if (!c->sclient) {
-      c->client = new OlaClient(c->cd);
-      c->client->Setup();
-      c->client->SetDMXCallback(ola::NewCallback(&ev_dmx, &w, static_cast<int>(i)));
-      if (c->tcp) c->client->SetCloseHandler(ola::NewSingleCallback(&ev_closed, &w, static_cast<int>(i)));
-    }
+    c->cd = NULL;
+    c->sd = NULL;
     w.cls.push_back(c);
+    if (types[i] != 'L') {
+      string err = connect_client(w, server.get(), ss, types, i, c);
+      if (!err.empty()) return err;
+    }
   }
 
   string obs, srv;
@@ -435,6 +480,7 @@ static string run_case_inner(const string &payload) {
     string tag;
     Cl *c = NULL;
     if (f.size() > 1 && op != "K" && op != "J") c = w.cls[vh::num(f[1]) % ncl];
+    if (c && !c->connected && op != "C") return "op-on-unconnected-client=" + op;
     if (c && c->sclient && op != "T" && op != "D" && op != ">" && op != "}" && op != "<") {
       return "bad-op-for-streaming-client=" + op;
     }
@@ -514,6 +560,12 @@ static string run_case_inner(const string &payload) {
       w.completions[rid];
       c->client->Patch(1, 0, ola::client::OUTPUT_PORT, ola::client::PATCH, vh::num(f[2]),
                        ola::NewSingleCallback(&ev_set, &w, c->idx, rid));
+    } else if (op == "C") {
+      // C,idx: a late client connects now (whatever descriptor numbers are free get reused)
+      if (!c->connected) {
+        string err = connect_client(w, server.get(), ss, types, c->idx, c);
+        if (!err.empty()) return err;
+      }
     } else if (op == "B") {
       // B,src,x,u,p,n,hex: back-pressure.  Client x (a registered sink over TCP) stops servicing its
       // socket while src streams n identical full frames, each handled by the daemon at once: the
@@ -675,7 +727,7 @@ static string run_case_inner(const string &payload) {
   // tear down: clients first (closes the pipes), then the server
   for (size_t i = 0; i < w.cls.size(); i++) {
     Cl *c = w.cls[i];
-    if (!c->closed) { if (c->sclient) c->sclient->Stop(); else c->client->Stop(); }
+    if (!c->closed && c->connected) { if (c->sclient) c->sclient->Stop(); else c->client->Stop(); }
     c->closed = true;
   }
   server.reset();
